@@ -194,8 +194,25 @@ func c08Run(line string) string {
 	if c08Tab == nil {
 		c08Mgr, c08Tab = c08Fresh(c08Self)
 	}
-	if f[0] == "mlook" {
+	// the Manager entry points over the same table (the lookups are the ones the agent's dial path uses)
+	switch f[0] {
+	case "mlook":
 		return c08Opt(c08Mgr.Lookup(net.IP(unhexTok(f[1]))))
+	case "mnext":
+		if nh, ok := c08Mgr.LookupNextHop(net.IP(unhexTok(f[1]))); ok {
+			return fmt.Sprintf("next %d", c08Num(nh))
+		}
+		return "none"
+	case "mwd":
+		c08Hist = append(c08Hist, line)
+		ok := c08Mgr.ProcessRouteWithdraw(c08ID(c08U(f[1])), []routing.RouteEntry{{Network: c08Net(f[2], f[3], f[4])}})
+		return fmt.Sprintf("%v ; %s", ok, c08Dump(c08Tab))
+	case "mdisc":
+		c08Hist = append(c08Hist, line)
+		return fmt.Sprintf("%d ; %s", c08Mgr.HandlePeerDisconnect(c08ID(c08U(f[1]))), c08Dump(c08Tab))
+	case "mclean":
+		c08Hist = append(c08Hist, line)
+		return fmt.Sprintf("%d ; %s", c08Mgr.CleanupStaleRoutes(time.Duration(c08U(f[1]))*time.Hour+30*time.Minute), c08Dump(c08Tab))
 	}
 	if f[0] == "race" {
 		hist := c08Hist
@@ -231,6 +248,12 @@ func c08Do(t *routing.Table, f []string) {
 		t.Clear()
 	case "look":
 		t.Lookup(net.IP(unhexTok(f[1])))
+	case "mwd":
+		t.RemoveRoute(c08Net(f[2], f[3], f[4]), c08ID(c08U(f[1])))
+	case "mdisc":
+		t.RemoveRoutesFromPeer(c08ID(c08U(f[1])))
+	case "mclean":
+		t.CleanupStaleRoutes(time.Duration(c08U(f[1]))*time.Hour + 30*time.Minute)
 	}
 }
 
@@ -597,8 +620,60 @@ func c08GenRaceCleanup(w *bufio.Writer, r *rng, kind int) {
 	fmt.Fprintf(w, "has %s 1\nsize\n", p)
 }
 
+// c08Spellings of 10.20.0.0/16 and 2001:db8:5::/48: canonical, host bits set, 16-byte IPv4-mapped
+// address with a 16-byte mask, 16-byte mapped address with a 4-byte mask, 4-byte address with a
+// 16-byte mask.
+var c08Spell4 = []string{"0a140000 16 32", "0a14fe07 16 32", "00000000000000000000ffff0a140000 112 128", "00000000000000000000ffff0a140900 16 32", "0a140000 112 128"}
+var c08Spell6 = []string{"20010db8000500000000000000000000 48 128", "20010db80005ffff0000000000000001 48 128"}
+
+// c08GenSpellings: for every (stored spelling, withdrawn spelling) of one network and every removal
+// entry point: add, look it up through the Manager (hit, a miss, next hop), remove, and look it up
+// again at once, twice - with nothing else touching that address family in between. `other` is a
+// route of the other family that must keep answering.
+func c08GenSpellings(w *bufio.Writer) {
+	type fam struct {
+		spell     []string
+		hit, miss string
+		other     string
+		otherHit  string
+	}
+	fams := []fam{
+		{c08Spell4, "0a140507", "0a150507", c08Spell6[0], "20010db8000500000000000000000009"},
+		{c08Spell6, "20010db8000500000000000000000009", "20010db8000600000000000000000009", c08Spell4[0], "0a140507"},
+	}
+	removals := []string{"rm", "mwd", "disc", "mdisc", "clean", "mclean", "clear"}
+	for _, f := range fams {
+		for _, store := range f.spell {
+			for _, wd := range f.spell {
+				for _, rmv := range removals {
+					fmt.Fprintln(w, "reset 1")
+					fmt.Fprintf(w, "add %s 3 4 7 1 3.4\n", f.other)
+					fmt.Fprintf(w, "add %s 2 5 3 1 2.5\n", store)
+					fmt.Fprintf(w, "mlook %s\nmlook %s\nmnext %s\nmlook %s\n", f.hit, f.miss, f.hit, f.otherHit)
+					switch rmv {
+					case "rm":
+						fmt.Fprintf(w, "rm %s 5\n", wd)
+					case "mwd":
+						fmt.Fprintf(w, "mwd 5 %s\n", wd)
+					case "disc", "mdisc":
+						fmt.Fprintf(w, "%s 2\n", rmv)
+					case "clean", "mclean":
+						fmt.Fprintf(w, "age 3\nadd %s 3 4 7 2 3.4\n%s 1\n", f.other, rmv) // the other family's route is refreshed and stays
+					default:
+						fmt.Fprintln(w, "clear")
+					}
+					fmt.Fprintf(w, "mlook %s\nmlook %s\nmnext %s\nmlook %s\nlook %s\nmlook %s\n", f.hit, f.hit, f.hit, f.miss, f.hit, f.otherHit)
+					// and back: store again under the withdrawn spelling, the cached miss must not stick
+					fmt.Fprintf(w, "add %s 2 5 3 2 2.5\nmlook %s\nmnext %s\n", wd, f.hit, f.hit)
+				}
+			}
+		}
+	}
+}
+
 func c08Gen(w *bufio.Writer, seed int64, tier string) {
 	r := newRng(c08Mix(seed))
+	c08GenSpellings(w)
 	for c := 0; c < 4; c++ {
 		c08GenRaceCleanup(w, r, c)
 	}
